@@ -11,7 +11,9 @@ import random
 from vlib import bench, par, rfc_response
 from vlib.runner import Result, violation
 
-PEERS = {"v4-local": ("127.0.0.1", 40001), "v4-other": ("10.9.9.9", 40002), "v6-local": ("::1", 40003), "unix": ""}
+# IPv6 peer addresses are 4-tuples (host, port, flowinfo, scope_id), exactly as accept() returns them
+PEERS = {"v4-local": ("127.0.0.1", 40001), "v4-other": ("10.9.9.9", 40002), "v6-local": ("::1", 40003, 0, 0),
+         "v6-other": ("2001:db8::9", 40004, 0, 0), "unix": ""}
 FAI = {"default": None, "star": "*", "other-peer": "10.9.9.9", "elsewhere": "192.0.2.1", "empty": ""}
 FH = {"default": None, "x_foo": "X_FOO", "star": "*", "empty": ""}
 SSH = {"default": None, "custom": {"X-MY-SCHEME": "tls"}, "none": {}}
